@@ -85,8 +85,10 @@ theorem find_typed (h : Ctx cfg c m) {k : Nat} {a : AttrC} (hf : c.find k = some
     have := hkind.1
     rw [hc] at this
     simp [this] at hk
-  | reach fl f nh nlri => simp only [AttrC.code] at hc; subst hc; simp [canonicalFlags] at hk
+  | reach fl f nh rsv nlri => simp only [AttrC.code] at hc; subst hc; simp [canonicalFlags] at hk
   | unreach fl f nlri => simp only [AttrC.code] at hc; subst hc; simp [canonicalFlags] at hk
+  | reachU fl k nh rsv body => simp only [AttrC.code] at hc; subst hc; simp [canonicalFlags] at hk
+  | unreachU fl k body => simp only [AttrC.code] at hc; subst hc; simp [canonicalFlags] at hk
 
 theorem typedOf_none (h : Ctx cfg c m) {k : Nat} (hf : c.find k = none) : c.typedOf k = none := by
   simp [TContent.typedOf, hf]
